@@ -1,30 +1,134 @@
 """C17 - context trees resolve variables and functions layer by layer.
 
-Correspondence: random forests of Context / MultiContext / LinkedContext and
-random operation histories are replayed on the real classes and on the Lean
-model (Yaql.Model.Context); after every step every live context is asked
-ctx[name], name in ctx, keys(), collect_functions, get_functions for a pool of
-names.  Oracle (on the real code alone): the flattened-layers reference of the
-property statement, transcribed in Python below (`ref_*`)."""
+Correspondence: random forests of Context / MultiContext / LinkedContext - with and without naming
+conventions - and random operation histories are replayed on the real classes and on the Lean
+model (Yaql.Model.Context + ContextHist: `hstep` / `answer`); after every step a random plan of
+READS (all of them shuffled, a few, none) goes through ctx[name], name in ctx, keys(),
+collect_functions and get_functions with use_convention False and True, for pools of variable names
+and of function names with and without inner underscores.
+Oracles (on the real code alone): (1) the flattened-layers reference of the property statement,
+kept in Python below (`Ref`) from the harness's OWN record of what the public interface was told -
+it never looks at yaql's objects; (2) read purity: the same reads made again, in reverse order, with
+no write in between, answer the same."""
 import json
+import random
 
 import common
-from yaql.language import contexts, specs
+from yaql.language import contexts, conventions, specs
 
 ID = 'C17'
-LEAN_MODULES = ['Yaql.Props.C17']
+LEAN_MODULES = ['Yaql.Props.C17', 'Yaql.Props.C17Conv']
 REQUIRED_THEOREMS = [
     'Yaql.Props.C17.get_data_refines', 'Yaql.Props.C17.contains_own', 'Yaql.Props.C17.keys_own',
     'Yaql.Props.C17.collect_refines', 'Yaql.Props.C17.multi_is_merge', 'Yaql.Props.C17.linked_is_concat',
     'Yaql.Props.C17.name_norm', 'Yaql.Props.C17.child_sees_parent', 'Yaql.Props.C17.write_local',
     'Yaql.Props.C17.write_then_read', 'Yaql.Props.C17.delete_multi',
-]
-TRUSTED = ['python dict/set semantics modelled as association lists']
+] + ['Yaql.Props.C17Conv.' + n for n in (
+    'collectU_refines', 'collectU_off', 'collectU_no_convention', 'collectU_uniform', 'collectU_congr',
+    'data_writes_invisible', 'hrun_erase_reads', 'read_insertion_invisible', 'last_read_depends_on_writes',
+    'same_writes_same_answers', 'Ex.memo_reads_not_pure')]
+TRUSTED = ['python dict/set semantics modelled as association lists',
+           'c17.Ref: the flattened-layers reference of the statement over the harness\'s own record of the writes',
+           'c17.convert: what the CamelCase / Python / host-defined convention makes of a function name']
 ASSUMPTIONS = ['values are ints/None; function definitions are opaque identities',
-               'MultiContext is never built from an empty list (the constructor raises IndexError)']
+               'MultiContext is never built from an empty list (the constructor raises IndexError)',
+               'conventions (the statement is silent): each plain context converts a requested function name by its own '
+               'convention object; a context made without one inherits its parent\'s (MultiContext: first member\'s)']
 
 NAMES = ['x', '$x', 'y', '', '$', '$1', '1', 'z']
-FNAMES = ['f', 'g', 'f_']
+# names functions are LOOKED UP by (trailing underscores are stripped by every lookup; an inner underscore is
+# what a naming convention rewrites) and names definitions are REGISTERED under (spec.name, verbatim)
+FNAMES = ['f', 'f_', 'g', 'foo_bar', 'fooBar', 'foo_bar__', 'FOO_BAR', 'F']
+REGNAMES = ['f', 'f', 'f', 'g', 'fooBar', 'fooBar', 'fooBar', 'foo_bar', 'foo_bar', 'foo_bar', 'FOO_BAR', 'FOO_BAR',
+            'F', 'FOOBAR', 'f_']
+CONV_KINDS = ['camel', 'camel', 'camel', 'python', 'upper']
+
+
+class UpperConvention(conventions.Convention):
+    """a host-defined convention"""
+
+    def convert_function_name(self, name):
+        return name.upper()
+
+    def convert_parameter_name(self, name):
+        return name.upper()
+
+
+def make_convention(kind):
+    if kind is None:
+        return None
+    return {'camel': conventions.CamelCaseConvention, 'python': conventions.PythonConvention,
+            'upper': UpperConvention}[kind]()
+
+
+def convert(kind, name):
+    """what the convention of that kind makes of a function name (transcribed from the conventions' documentation:
+    CamelCase joins `_x` into `X` except at the very start; Python leaves names alone)"""
+    if kind == 'camel':
+        out, i = [], 0
+        while i < len(name):
+            ch = name[i]
+            if ch == '_' and i > 0 and i + 1 < len(name) and (name[i + 1].isalnum() or name[i + 1] == '_'):
+                out.append(name[i + 1].upper())
+                i += 2
+            else:
+                out.append(ch)
+                i += 1
+        return ''.join(out)
+    if kind == 'upper':
+        return name.upper()
+    return name
+
+
+def gen_reads(rng, nh, dense):
+    """the reads made after a step: {'all': shuffle seed} or {'some': [[kind, handle, index, use_convention]]}"""
+    if nh == 0:
+        return dict(some=[])
+    if dense:
+        return dict(all=rng.randrange(1 << 30))
+    out = []
+    k = rng.choice([0, 0, 1, 2, 3, 5, 8, 12])
+    while len(out) < k:
+        h = rng.randrange(nh)
+        r = rng.random()
+        if r < 0.4:
+            rd = ['gf', h, rng.randrange(len(FNAMES)), rng.random() < 0.5]
+        elif r < 0.8:
+            rd = ['col', h, rng.randrange(len(FNAMES)), rng.random() < 0.5]
+        elif r < 0.9:
+            rd = ['get', h, rng.randrange(len(NAMES)), False]
+        elif r < 0.97:
+            rd = ['has', h, rng.randrange(len(NAMES)), False]
+        else:
+            rd = ['keys', h, 0, False]
+        out.append(rd)
+        if rd[0] in ('gf', 'col') and rng.random() < 0.5:
+            # the same name the other way round - from the same context or from another one that may reach the same layer
+            out.append([rng.choice(['gf', 'col']), rd[1] if rng.random() < 0.6 else rng.randrange(nh), rd[2], not rd[3]])
+    return dict(some=out)
+
+
+def all_reads(nh):
+    out = []
+    for h in range(nh):
+        out += [['get', h, i, False] for i in range(len(NAMES))]
+        out += [['has', h, i, False] for i in range(len(NAMES))]
+        out.append(['keys', h, 0, False])
+        for uc in (False, True):
+            out += [['gf', h, i, uc] for i in range(len(FNAMES))]
+            out += [['col', h, i, uc] for i in range(len(FNAMES))]
+    return out
+
+
+def reads_of(op, nh):
+    rd = op.get('rd')
+    if rd is None:
+        return all_reads(nh)
+    if 'all' in rd:
+        out = all_reads(nh)
+        random.Random(rd['all']).shuffle(out)
+        return out
+    return [r for r in rd['some'] if r[1] < nh]
 
 
 def gen_history(rng, nsteps):
@@ -34,45 +138,56 @@ def gen_history(rng, nsteps):
     lt_kind = {}    # for linked handles: kind of the target
     nfid = 0
     fids = []       # (fname, id)
+    style = rng.choice(['dense', 'sparse', 'sparse', 'sparse', 'mixed'])
+    p_conv = rng.choice([0.0, 0.5, 0.8, 1.0])        # how many parentless contexts get a convention
+
+    def a_conv(p):
+        return rng.choice(CONV_KINDS) if rng.random() < p else None
+
     for _ in range(nsteps):
         if nh == 0:
-            ops.append(dict(o='plain', parent=None)); kinds.append('plain'); nh += 1
-            continue
-        r = rng.random()
-        h = rng.randrange(nh)
-        if r < 0.10 and nh < 14:
-            ops.append(dict(o='plain', parent=rng.choice([None] + list(range(nh))))); kinds.append('plain'); nh += 1
-        elif r < 0.18 and nh < 14:
-            k = rng.choice([1, 2, 2, 3])
-            ops.append(dict(o='multi', members=[rng.randrange(nh) for _ in range(k)])); kinds.append('multi'); nh += 1
-        elif r < 0.25 and nh < 14:
-            t = rng.randrange(nh)
-            ops.append(dict(o='linked', parent=rng.choice([None] + list(range(nh))), target=t))
-            lt_kind[nh] = kinds[t]; kinds.append('linked'); nh += 1
-        elif r < 0.33 and nh < 14:
-            ops.append(dict(o='child', h=h))
-            if kinds[h] == 'linked' and lt_kind[h] != 'plain':
-                pass            # TypeError in both worlds, no handle
-            else:
-                kinds.append('plain'); nh += 1
-        elif r < 0.60:
-            ops.append(dict(o='set', h=h, n=rng.choice(NAMES), v=rng.choice([None, 0, 1, 2, 3, 7])))
-        elif r < 0.72:
-            ops.append(dict(o='del', h=h, n=rng.choice(NAMES)))
-        elif r < 0.90:
-            if fids and rng.random() < 0.3:
-                f, i = rng.choice(fids)
-            else:
-                f, i = rng.choice(FNAMES), nfid
-                nfid += 1
-                fids.append((f, i))
-            ops.append(dict(o='reg', h=h, f=f, id=i, x=rng.random() < 0.3))
+            ops.append(dict(o='plain', parent=None, conv=a_conv(p_conv))); kinds.append('plain'); nh += 1
         else:
-            if fids:
-                f, i = rng.choice(fids)
-                ops.append(dict(o='delf', h=h, f=f, id=i))
+            r = rng.random()
+            h = rng.randrange(nh)
+            if r < 0.10 and nh < 14:
+                parent = rng.choice([None] + list(range(nh)))
+                ops.append(dict(o='plain', parent=parent, conv=a_conv(p_conv if parent is None else 0.2)))
+                kinds.append('plain'); nh += 1
+            elif r < 0.18 and nh < 14:
+                k = rng.choice([1, 2, 2, 3])
+                ops.append(dict(o='multi', members=[rng.randrange(nh) for _ in range(k)], conv=a_conv(0.15)))
+                kinds.append('multi'); nh += 1
+            elif r < 0.25 and nh < 14:
+                t = rng.randrange(nh)
+                ops.append(dict(o='linked', parent=rng.choice([None] + list(range(nh))), target=t, conv=a_conv(0.15)))
+                lt_kind[nh] = kinds[t]; kinds.append('linked'); nh += 1
+            elif r < 0.33 and nh < 14:
+                ops.append(dict(o='child', h=h))
+                if kinds[h] == 'linked' and lt_kind[h] != 'plain':
+                    pass            # TypeError in both worlds, no handle
+                else:
+                    kinds.append('plain'); nh += 1
+            elif r < 0.55:
+                ops.append(dict(o='set', h=h, n=rng.choice(NAMES), v=rng.choice([None, 0, 1, 2, 3, 7])))
+            elif r < 0.65:
+                ops.append(dict(o='del', h=h, n=rng.choice(NAMES)))
+            elif r < 0.90:
+                if fids and rng.random() < 0.3:
+                    f, i = rng.choice(fids)
+                else:
+                    f, i = rng.choice(REGNAMES), nfid
+                    nfid += 1
+                    fids.append((f, i))
+                ops.append(dict(o='reg', h=h, f=f, id=i, x=rng.random() < 0.3))
             else:
-                ops.append(dict(o='set', h=h, n='x', v=1))
+                if fids:
+                    f, i = rng.choice(fids)
+                    ops.append(dict(o='delf', h=h, f=f, id=i))
+                else:
+                    ops.append(dict(o='set', h=h, n='x', v=1))
+        dense = style == 'dense' or (style == 'mixed' and rng.random() < 0.3)
+        ops[-1]['rd'] = gen_reads(rng, nh, dense)
     return ops
 
 
@@ -98,12 +213,14 @@ class Impl:
         try:
             if o == 'plain':
                 p = None if op['parent'] is None else self.hs[op['parent']]
-                self.hs.append(contexts.Context(p))
+                self.hs.append(contexts.Context(p, convention=make_convention(op.get('conv'))))
             elif o == 'multi':
-                self.hs.append(contexts.MultiContext([self.hs[m] for m in op['members']]))
+                self.hs.append(contexts.MultiContext([self.hs[m] for m in op['members']],
+                                                     convention=make_convention(op.get('conv'))))
             elif o == 'linked':
                 p = None if op['parent'] is None else self.hs[op['parent']]
-                self.hs.append(contexts.LinkedContext(p, self.hs[op['target']]))
+                self.hs.append(contexts.LinkedContext(p, self.hs[op['target']],
+                                                      convention=make_convention(op.get('conv'))))
             elif o == 'child':
                 self.hs.append(self.hs[op['h']].create_child_context())
             elif o == 'set':
@@ -120,23 +237,25 @@ class Impl:
         except (TypeError, AttributeError, IndexError):
             return 'PyError'   # create_child_context of a linked context whose target is not a plain Context
 
-    def observe(self):
-        out = []
-        for c in self.hs:
-            gf = []
-            for f in FNAMES:
-                s, e = c.get_functions(f)
-                gf.append([sorted(self.fid(d) for d in s), bool(e)])
-            out.append(dict(
-                get=[c[n] for n in NAMES],
-                has=[n in c for n in NAMES],
-                keys=list(c.keys()),
-                col=[[sorted(self.fid(d) for d in layer) for layer in c.collect_functions(f)] for f in FNAMES],
-                gf=gf))
-        return out
+    def read(self, rd):
+        """one read through the public interface, in the vocabulary of the reference / the model"""
+        kind, h, i, uc = rd
+        c = self.hs[h]
+        if kind == 'get':
+            return c[NAMES[i]]
+        if kind == 'has':
+            return NAMES[i] in c
+        if kind == 'keys':
+            return sorted(c.keys())
+        if kind == 'gf':
+            s, e = c.get_functions(FNAMES[i], use_convention=uc) if uc else c.get_functions(FNAMES[i])
+            return [sorted(self.fid(d) for d in s), bool(e)]
+        ls = c.collect_functions(FNAMES[i], use_convention=uc) if uc else c.collect_functions(FNAMES[i])
+        return [sorted(self.fid(d) for d in layer) for layer in ls]
 
 
-# ---- the property's reference ("flattened layers"), evaluated on the real objects' raw state only
+# ---- the property's reference ("flattened layers"): the harness's OWN record of what the public interface was told;
+# it never looks at yaql's objects
 
 def norm(n):
     if not n.startswith('$'):
@@ -144,128 +263,233 @@ def norm(n):
     return '$1' if n == '$' else n
 
 
-def own_layer(c):
-    """first layer of a context as (data dict, {name: set(fd)}, exclusive names)"""
-    if isinstance(c, contexts.Context):
-        return dict(c._data), {k: set(v) for k, v in c._functions.items() if v}, set(c._exclusive_funcs)
-    if isinstance(c, contexts.LinkedContext):
-        return own_layer(c.linked_context)
-    data, funcs, excl = {}, {}, set()
-    for m in c._context_list:
-        d, f, e = own_layer(m)
-        for k, v in d.items():
-            data.setdefault(k, v)
-        for k, v in f.items():
-            funcs.setdefault(k, set()).update(v)
-        excl |= e
-    return data, funcs, excl
+class Ref:
+    """nodes[h] = ('plain', cell, parent handle | None) | ('multi', [member handles]) |
+    ('linked', target handle, parent handle | None); cells[c] = what the plain context c holds.
+    By the statement: a context denotes a list of layers, nearest first - a plain context its own cell followed by its
+    parent's layers, a multi-context the layer-wise merge of its members' layer lists (data: first member wins,
+    functions: union, exclusive: any), a linked context its target's layers followed by those of the parent it was
+    given.  A layer is kept as the list of cells merged into it, in priority order.  Each plain context converts a
+    requested function name by its own convention."""
 
+    def __init__(self):
+        self.nodes = []
+        self.cells = []
+        self.chain = []         # per handle: conventions along the .parent chain
+        self._memo = {}
 
-def ref_layers(c):
-    """layers from nearest to farthest, by the statement: a multi-context is the
-    layer-wise merge of its members, a linked context its linked chain followed by
-    its own parent chain (the `parent` given at construction)."""
-    if c is None:
-        return []
-    if isinstance(c, contexts.Context):
-        return [own_layer(c)] + ref_layers(c.parent)
-    if isinstance(c, contexts.MultiContext):
-        chains = [ref_layers(m) for m in c._context_list]
-        out = []
-        for depth in range(max(len(ch) for ch in chains)):
-            data, funcs, excl = {}, {}, set()
-            for ch in chains:
-                if depth < len(ch):
-                    d, f, e = ch[depth]
-                    for k, v in d.items():
-                        data.setdefault(k, v)
-                    for k, v in f.items():
-                        funcs.setdefault(k, set()).update(v)
-                    excl |= e
-            out.append((data, funcs, excl))
+    def _cell(self, conv):
+        self.cells.append(dict(data={}, funcs={}, excl=set(), conv=conv))
+        return len(self.cells) - 1
+
+    def layers(self, h):
+        if h is None:
+            return []
+        if h in self._memo:
+            return self._memo[h]
+        n = self.nodes[h]
+        if n[0] == 'plain':
+            out = [[n[1]]] + self.layers(n[2])
+        elif n[0] == 'linked':
+            out = self.layers(n[1]) + self.layers(n[2])
+        else:
+            chains = [self.layers(m) for m in n[1]]
+            out = []
+            for d in range(max(len(ch) for ch in chains)):
+                out.append([c for ch in chains if d < len(ch) for c in ch[d]])
+        self._memo[h] = out         # shapes never change after construction
         return out
-    # linked: target chain, then the parent chain that was passed to the outermost constructor
-    chain = ref_layers(c.linked_context)
-    p = c
-    while isinstance(p, contexts.LinkedContext) and p.linked_context.parent is not None \
-            and isinstance(p.parent, contexts.LinkedContext) and p.parent.linked_context is p.linked_context.parent:
-        p = p.parent
-    return chain + ref_layers(p.parent)
+
+    # conventions (doc-silent, as implemented): chain[h] = the convention of the context object h and of the objects
+    # along its `.parent` chain; a context made without one takes its parent's, a MultiContext its first member's and
+    # only then that of the parent it builds (nothing / the single parent / a MultiContext of the parents), a
+    # LinkedContext that of the parent it builds (one LinkedContext per ancestor of the target, then the given parent)
+    @staticmethod
+    def _base(given, parent_chain):
+        return [given or (parent_chain[0] if parent_chain else None)] + parent_chain
+
+    def _multi_chain(self, given, chains):
+        given = given or chains[0][0]
+        parents = [ch[1:] for ch in chains if len(ch) > 1]
+        if not parents:
+            return self._base(given, [])
+        if len(parents) == 1:
+            return self._base(given, parents[0])
+        return self._base(given, self._multi_chain(None, parents))
+
+    def _linked_chain(self, given, pchain, tchain):
+        if len(tchain) <= 1:
+            return self._base(given, pchain)
+        return self._base(given, self._linked_chain(given, pchain, tchain[1:]))
+
+    def step(self, op):
+        o = op['o']
+        if o == 'plain':
+            p = op['parent']
+            ch = self._base(op.get('conv'), self.chain[p] if p is not None else [])
+            self.nodes.append(('plain', self._cell(ch[0]), p)); self.chain.append(ch)
+        elif o == 'multi':
+            self.nodes.append(('multi', list(op['members'])))
+            self.chain.append(self._multi_chain(op.get('conv'), [self.chain[m] for m in op['members']]))
+        elif o == 'linked':
+            p = op['parent']
+            self.nodes.append(('linked', op['target'], p))
+            self.chain.append(self._linked_chain(op.get('conv'), self.chain[p] if p is not None else [],
+                                                 self.chain[op['target']]))
+        elif o == 'child':
+            n = self.nodes[op['h']]
+            if n[0] == 'linked' and self.nodes[n[1]][0] != 'plain':
+                return 'PyError'        # statement silent; the code cannot build the child
+            ch = self._base(None, self.chain[op['h']])
+            self.nodes.append(('plain', self._cell(ch[0]), op['h'])); self.chain.append(ch)
+        else:
+            own = self.layers(op['h'])[0]
+            if o == 'set':
+                self.cells[own[0]]['data'][norm(op['n'])] = op['v']
+            elif o == 'del':
+                hit = [c for c in own if norm(op['n']) in self.cells[c]['data']]
+                if not hit:
+                    return 'KeyError'
+                for c in hit:
+                    self.cells[c]['data'].pop(norm(op['n']), None)
+            elif o == 'reg':
+                cell = self.cells[own[0]]
+                cell['funcs'].setdefault(op['f'], set()).add(op['id'])
+                if op['x']:
+                    cell['excl'].add(op['f'])
+            elif o == 'delf':
+                for c in own:       # K4, as implemented: the name's exclusive flag goes with any deletion
+                    self.cells[c]['funcs'].get(op['f'], set()).discard(op['id'])
+                    self.cells[c]['excl'].discard(op['f'])
+        return 'ok'
+
+    def _layer_funcs(self, layer, f, uc):
+        ids, excl = set(), False
+        for c in layer:
+            cell = self.cells[c]
+            key = f.rstrip('_')
+            if uc and cell['conv']:
+                key = convert(cell['conv'], key)
+            ids |= cell['funcs'].get(key, set())
+            excl = excl or key in cell['excl']
+        return sorted(ids), excl
+
+    def read(self, rd):
+        kind, h, i, uc = rd
+        layers = self.layers(h)
+        if kind == 'get':
+            for layer in layers:
+                for c in layer:
+                    if norm(NAMES[i]) in self.cells[c]['data']:
+                        return self.cells[c]['data'][norm(NAMES[i])]
+            return None
+        if kind == 'has':
+            return any(norm(NAMES[i]) in self.cells[c]['data'] for c in layers[0])
+        if kind == 'keys':
+            return sorted({k for c in layers[0] for k in self.cells[c]['data']})
+        if kind == 'gf':
+            ids, excl = self._layer_funcs(layers[0], FNAMES[i], uc)
+            return [ids, excl]
+        out = []
+        for layer in layers:
+            ids, excl = self._layer_funcs(layer, FNAMES[i], uc)
+            if ids:
+                out.append(ids)
+            if excl:
+                break
+        return out
 
 
-def ref_observe(impl):
-    out = []
-    for c in impl.hs:
-        layers = ref_layers(c)
-        get = []
-        for n in NAMES:
-            v = None
-            for d, _, _ in layers:
-                if norm(n) in d:
-                    v = d[norm(n)]
-                    break
-            get.append(v)
-        d0 = layers[0][0]
-        col = []
-        for f in FNAMES:
-            f = f.rstrip('_')
-            res = []
-            for _, funcs, excl in layers:
-                if funcs.get(f):
-                    res.append(sorted(impl.fid(x) for x in funcs[f]))
-                if f in excl:
-                    break
-            col.append(res)
-        out.append(dict(get=get, has=[norm(n) in d0 for n in NAMES], keys=sorted(d0), col=col))
-    return out
+def model_read(obs, rd):
+    kind, h, i, uc = rd
+    o = obs[h]
+    if kind in ('get', 'has'):
+        return o[kind][i]
+    if kind == 'keys':
+        return sorted(o['keys'])
+    return o[kind][1 if uc else 0][i]
 
 
-def run_history(ops, drv):
-    """returns (failure kind, message, step index) or None"""
+def describe_read(rd):
+    kind, h, i, uc = rd
+    if kind in ('get', 'has'):
+        return 'handle %d %s %r' % (h, 'ctx[..]' if kind == 'get' else 'in', NAMES[i])
+    if kind == 'keys':
+        return 'handle %d keys()' % h
+    return 'handle %d %s(%r, use_convention=%s)' % (h, 'get_functions' if kind == 'gf' else 'collect_functions',
+                                                    FNAMES[i], uc)
+
+
+def run_history(ops, drv, stats=None):
+    """returns (failure kind, message, step index, key) or None"""
     impl = Impl()
+    ref = Ref()
     model = drv.ask(dict(p='C17', ops=ops, names=NAMES, fnames=FNAMES))['steps'] if drv else None
+    last_uc = {}
     for i, op in enumerate(ops):
         present = (op['n'] in impl.hs[op['h']]) if op['o'] == 'del' else None
         r = impl.step(op)
+        rr = ref.step(op)
         if op['o'] == 'del' and present != (r == 'ok'):
             # the statement: a context's own (for a multi-context: merged) first layer is what
             # membership reports, and deletion acts on that layer
             return ('oracle', 'step %d %s: name %s the context before del, outcome %s' % (
-                i, json.dumps(op), 'in' if present else 'not in', r), i)
-        obs = impl.observe()
-        ref = ref_observe(impl)
-        for h, (a, b) in enumerate(zip(obs, ref)):
-            for key in ('get', 'has', 'col'):
-                if a[key] != b[key]:
-                    return ('oracle', 'step %d %s: handle %d %s: real %r, layered reference %r' % (
-                        i, json.dumps(op), h, key, a[key], b[key]), i)
-            if sorted(a['keys']) != b['keys']:
-                return ('oracle', 'step %d: handle %d keys: real %r, reference %r' % (i, h, a['keys'], b['keys']), i)
+                i, json.dumps(op), 'in' if present else 'not in', r), i, 'multi-delete-partial')
+        if r != rr:
+            return ('oracle', 'step %d %s: real outcome %s, the layered reference gives %s' % (i, json.dumps(op), r, rr),
+                    i, 'multi-delete-partial' if op['o'] == 'del' else 'lookup')
+        reads = reads_of(op, len(impl.hs)) if i < len(ops) - 1 else reads_of(op, len(impl.hs)) + all_reads(len(impl.hs))
+        answers = []
+        for rd in reads:
+            a = impl.read(rd)
+            answers.append(a)
+            b = ref.read(rd)
+            if a != b:
+                return ('oracle', 'step %d %s: %s: real %r, layered reference %r' % (
+                    i, json.dumps({k: v for k, v in op.items() if k != 'rd'}), describe_read(rd), a, b), i, 'lookup')
+            if stats is not None and rd[0] in ('gf', 'col'):
+                stats['reads:%s:uc=%s' % (rd[0], rd[3])] = stats.get('reads:%s:uc=%s' % (rd[0], rd[3]), 0) + 1
+                key = (rd[1], FNAMES[rd[2]])
+                if key in last_uc and last_uc[key] != rd[3]:
+                    stats.setdefault('_flips', set()).add((key, rd[3]))
+                last_uc[key] = rd[3]
         if op['o'] == 'del':
             # the statement: deleting removes the variable from the context's own (merged) first layer
             c = impl.hs[op['h']]
             if r == 'ok' and op['n'] in c:
-                return ('oracle', 'step %d: del %r succeeded but name still in context' % (i, op['n']), i)
+                return ('oracle', 'step %d: del %r succeeded but name still in context' % (i, op['n']), i,
+                        'multi-delete-partial')
+        # reads are pure: the same reads once more, the other way round, with no write in between
+        if reads and (i % 3 == 0 or i == len(ops) - 1):
+            for rd, a in reversed(list(zip(reads, answers))):
+                a2 = impl.read(rd)
+                if a2 != a:
+                    return ('oracle', 'step %d: %s answered %r, and %r when read again after other reads with no '
+                            'write in between' % (i, describe_read(rd), a, a2), i, 'read-impure')
         if model is not None:
             m = model[i]
             if m['r'] != r:
                 return ('mismatch',
-                        'step %d %s: real outcome %s, model %s' % (i, json.dumps(op), r, m['r']), i)
-            if m['obs'] != obs:
-                for h, (a, b) in enumerate(zip(obs, m['obs'])):
-                    if a != b:
-                        return ('mismatch', 'step %d %s: handle %d real %r model %r' % (i, json.dumps(op), h, a, b), i)
-                return ('mismatch', 'step %d: different number of handles' % i, i)
+                        'step %d %s: real outcome %s, model %s' % (i, json.dumps(op), r, m['r']), i, 'lookup')
+            if len(m['obs']) != len(impl.hs):
+                return ('mismatch', 'step %d: different number of handles' % i, i, 'lookup')
+            for rd, a in zip(reads, answers):
+                b = model_read(m['obs'], rd)
+                if a != b:
+                    return ('mismatch', 'step %d %s: %s: real %r model %r' % (
+                        i, json.dumps({k: v for k, v in op.items() if k != 'rd'}), describe_read(rd), a, b), i, 'lookup')
     return None
 
 
 def shrink(ops, drv, kind):
     """delete steps while the same kind of failure persists (handles are positional, so only
-    steps that create no handle are removed, plus truncation)"""
+    steps that create no handle are removed, plus truncation), then thin out the reads"""
+    import time
+    deadline = time.time() + 40
     f = run_history(ops, drv)
     ops = ops[:f[2] + 1]
     i = 0
-    while i < len(ops) - 1:
+    while i < len(ops) - 1 and time.time() < deadline:
         if ops[i]['o'] in ('set', 'del', 'reg', 'delf'):
             cand = ops[:i] + ops[i + 1:]
             g = run_history(cand, drv)
@@ -273,6 +497,16 @@ def shrink(ops, drv, kind):
                 ops = cand[:g[2] + 1]
                 continue
         i += 1
+    # reads: none at all on a step if the failure stays; else keep the plan
+    for i in range(len(ops)):
+        if time.time() > deadline:
+            break
+        if ops[i].get('rd') != dict(some=[]):
+            cand = [dict(o) for o in ops]
+            cand[i]['rd'] = dict(some=[])
+            g = run_history(cand, drv)
+            if g and g[0] == kind:
+                ops = cand[:g[2] + 1]
     return ops
 
 
@@ -280,20 +514,30 @@ def run(env, res):
     drv = env['driver']
     tier = env['tier']
     rng = common.make_rng(env['seed'], 'C17')
-    n_hist = 400 if tier == 'quick' else 12000
+    n_hist = 400 if tier == "quick" else 8000
     if env['replay']:
         rp = json.load(open(env['replay']))
         histories = [rp['case']['ops']]
     else:
         histories = None
-    res.rule = ('random histories of 10-60 operations over forests of <=14 contexts mixing the three classes; '
+    res.rule = ('random histories of 10-60 operations over forests of <=14 contexts mixing the three classes, with and '
+                'without naming conventions (CamelCase / Python / a host-defined one; given to parentless contexts, '
+                'sometimes to children and composites, inherited otherwise); definitions are registered under names '
+                'with and without inner underscores, in both spellings; after every step a random plan of reads - all '
+                'of them in a shuffled order, a few, or none - through ctx[..], in, keys(), get_functions and '
+                'collect_functions with use_convention False and True (the same name both ways from the same and from '
+                'other contexts, in both orders); every third step the reads are repeated in reverse order; '
                 'distinct = distinct op sequences; non-trivial = history creates a multi or linked context '
                 'and performs a write after it')
     kinds_hist = {}
+    stats = {}
+    n_flip = 0
     for k in range(n_hist if histories is None else len(histories)):
         ops = gen_history(rng, rng.randrange(10, 61)) if histories is None else histories[k]
         for op in ops:
             kinds_hist[op['o']] = kinds_hist.get(op['o'], 0) + 1
+            if op.get('conv'):
+                kinds_hist['conv:' + op['o'] + ':' + op['conv']] = kinds_hist.get('conv:' + op['o'] + ':' + op['conv'], 0) + 1
         seen_composite = False
         nontrivial = False
         for op in ops:
@@ -301,17 +545,23 @@ def run(env, res):
                 seen_composite = True
             elif seen_composite and op['o'] in ('set', 'del', 'reg', 'delf'):
                 nontrivial = True
-        res.case(common.digest(ops), nontrivial, sample=ops[:12] if k < 2 else None)
-        f = run_history(ops, drv)
+        res.case(common.digest(ops), nontrivial, sample=[{k2: v for k2, v in op.items() if k2 != 'rd'}
+                                                         for op in ops[:12]] if k < 2 else None)
+        stats.pop('_flips', None)
+        f = run_history(ops, drv, stats)
+        flips = stats.pop('_flips', set())
+        if {fl[0] for fl in flips if fl[1]} & {fl[0] for fl in flips if not fl[1]}:
+            n_flip += 1         # some (context, name) was looked up literal-then-convention AND convention-then-literal
         res.traces += 1
         if f:
             kind = f[0]
             small = shrink(ops, drv, kind)
             g = run_history(small, drv)
-            delk = 'multi-delete-partial' if (small[-1]['o'] == 'del') else 'lookup'
-            res.fail(kind, delk, g[1], dict(ops=small, names=NAMES, fnames=FNAMES))
+            res.fail(kind, g[3], g[1], dict(ops=small, names=NAMES, fnames=FNAMES))
             if len(res.failures) >= 5:
                 break
+    kinds_hist.update(stats)
+    kinds_hist['histories-with-a-name-looked-up-both-ways-in-both-orders'] = n_flip
     res.extra['op_histogram'] = kinds_hist
     return res
 
